@@ -392,6 +392,35 @@ func runC01(c *Ctx) {
 				}
 			}
 		}
+		// undo pressed more often than there are states to undo, then redo (and an edit, undo, redo):
+		// longer than the general search goes, cheap as a family of its own
+		for _, mode := range []string{"emacs", "vi"} {
+			rc := modeRC(mode) + "\"\\C-x\\C-]r\": redo\n"
+			undo, redo, pre := "\x1f", "\x18\x1dr", []string{"ab"}
+			if mode == "vi" {
+				rc = modeRC(mode) + "set keymap vi-command\n\"\\C-r\": redo\n"
+				undo, redo, pre = "u", "\x12", []string{"a", "b", "\x1b"}
+			}
+			for _, edits := range [][]string{nil, {"\x17", "c"}} {
+				if mode == "vi" && edits != nil {
+					edits = []string{"x", "i", "c", "\x1b"}
+				}
+				for n := 1; n <= 6; n++ {
+					for m := 1; m <= 3; m++ {
+						ks := append(append([]string{}, pre...), edits...)
+						for i := 0; i < n; i++ {
+							ks = append(ks, undo)
+						}
+						for i := 0; i < m; i++ {
+							ks = append(ks, redo)
+						}
+						ks = append(ks, undo, redo, "\r")
+						cfg := harness.Config{RC: rc, W: 40, H: 12, Prompt: "$ "}
+						bjs = append(bjs, bj{fmt.Sprintf("[undo x%d, redo x%d] mode=%s keys=%q", n, m, mode, ks), harness.Job{ID: len(bjs), Cfg: cfg, Calls: [][]harness.Answer{Keys(ks...)}}})
+					}
+				}
+			}
+		}
 		hangs := 0
 		next := 0
 		c.Pool.Stream(func() (harness.Job, bool) {
